@@ -18,6 +18,7 @@ HOOK_COMMITS = ["e220ebea8a1e5de7708b107eff0326913e45a118"]
 
 PROPS["C03"] = dict(
     gen=cases.gen_C03,
+    accept=cases.accept_latest,
     mask={"time", "cat"},
     rule="every Datum operator form x payload type (f32, Quantity, State, Command, bool) x timestamp pair class "
          "(equal, adjacent, negative, i64 extremes, random) enumerated; replace-if-older helpers incl. empty slots; "
@@ -42,6 +43,7 @@ PROPS["C01"] = dict(
 
 PROPS["C02"] = dict(
     gen=cases.gen_C02,
+    accept=cases.accept_latest,
     mask={"cat", "float"},
     rule="every assignment of {Err(1),Err(2),None,Some} to the inputs of each combinator: n-ary sum/product/newest-of at "
          "arity 1..5 exhaustively (x all 3^n timestamp orders for n<=3, sampled for n=4,5; thorough: arity up to 8), "
@@ -69,12 +71,16 @@ PROPS["C18"] = dict(
     rule="i64 operands stratified over magnitudes 0..2^62, signs, extremes and neighbourhoods of 2^24*2^k (f32 rounding ties); "
          "every Time/DimensionlessInteger operator and assign form incl. overflow and /0 panics; conversions to/from Quantity and i64; "
          "f32 seconds stratified over exponent/mantissa below 9e9; TryFrom on all 49 units; every mixed impl on all 49 units",
-    trusted_base=COMMON_TB + ["IEEE-754 round-to-nearest of `as f32`, `/`, `*` and saturating `as i64`: exercised bit-for-bit by the "
-                              "correspondence, not proved"],
+    trusted_base=COMMON_TB + ["IEEE-754 round-to-nearest of `as f32`, `/`, `*` (RoundingSpec hypotheses: relative error 2^-24 in the normal "
+                              "range, monotone, exact on 0 and 1e9) and saturating `as i64`: assumed for the accuracy theorems, exercised "
+                              "bit-for-bit by the correspondence"],
     assumptions=["debug build: integer overflow panics (release wraps; the property quantifies over non-overflowing inputs)"],
-    partial="Integer exactness, success conditions and the identity of every mixed operator with its converted form are proved; "
-            "the accuracy clauses (two ulps, monotone, round-trip <= |t|*2^-22 + 1 ns) concern binary32 rounding and are tested "
-            "bit-for-bit against Lean's Float32, not proved.",
+    partial="Proved: integer exactness (debug-build semantics), success conditions, identity of every mixed operator with its converted "
+            "form (tier S/L); and, for an ABSTRACT rounding function rn satisfying the IEEE-754 round-to-nearest contract (relative error "
+            "<= 2^-24, monotone, rn 0 = 0, rn 1e9 = 1e9), the accuracy clauses: Time->Quantity = rn(rn t / 1e9), within (2u+u^2)|s| <= |s|/2^22, "
+            "monotone in t; Quantity->Time within one rounding + 1 ns; round trip <= |t|/2^22 + 1 ns (Thm/Lemmas/C18Rounding.lean). "
+            "Trusted, not proved: that binary32 hardware arithmetic meets that contract in the range used (argument in the file header); "
+            "exercised bit-for-bit against Lean's Float32.",
 )
 
 PROPS["C09"] = dict(
@@ -158,6 +164,8 @@ MP_RULE = ("random start/end states (positions within ±1e4 mm, start/end veloci
 PROPS["C06"] = dict(
     gen=cases.gen_C06,
     oracle=cases.oracle_C06,
+    project=cases.project_C06,
+    precompare=cases.precompare_C06,
     mask={"cat", "time", "unit", "float"},
     rule=MP_RULE + "; plus a structural oracle on the implementation's own outputs (absence iff t<0, piece order, mode vs piece, "
                    "history = matching accessor bit-identically, end command after completion, 0<=t1<=t2<=t3)",
@@ -169,6 +177,7 @@ PROPS["C06"] = dict(
 PROPS["C07"] = dict(
     gen=cases.gen_C07,
     oracle=cases.oracle_C07,
+    project=cases.project_C07,
     mask={"cat", "time", "unit", "float"},
     tol=NUM_TOL,
     rule=MP_RULE + "; dense random query times on [0,t3]; every input with zero state accelerations is paired with its mirror (positions and "
@@ -189,6 +198,7 @@ DEV_TB = COMMON_TB + ["terminals/devices are modelled as an index-addressed worl
 
 PROPS["C08"] = dict(
     gen=cases.gen_C08,
+    project=cases.project_states,
     mask={"cat", "time", "float"},
     tol=NUM_TOL,
     rule="inverter, gear train (raw ratio, tooth lists of 2..6, Quantity ratio on all 49 units), axle of 0..6 terminals, differential in all "
@@ -203,6 +213,7 @@ PROPS["C08"] = dict(
 
 PROPS["C13"] = dict(
     gen=cases.gen_C13,
+    project=cases.project_commands,
     mask={"cat", "time", "float"},
     tol=NUM_TOL,
     rule="the C08 device scenarios with commands of all three kinds carrying distinct timestamps written on own/external terminals (some "
@@ -214,6 +225,8 @@ PROPS["C13"] = dict(
 
 PROPS["C20"] = dict(
     gen=cases.gen_C20,
+    project=cases.project_C20,
+    oracle=cases.oracle_C20,
     mask={"cat", "time", "float"},
     tol=NUM_TOL,
     rule="random sequences of up to 32 events per wrapper: state/command written on the connected external terminal or on the wrapper's own "
@@ -227,6 +240,7 @@ PROPS["C20"] = dict(
 PROPS["C12"] = dict(
     gen=cases.gen_C12,
     oracle=cases.oracle_C12,
+    line_mask=cases.line_mask_C12,
     mask={"cat", "time", "unit", "float"},
     tol=NUM_TOL,
     rule="both variants (f32 / Quantity) of both filters: every interleaving of {present, absent, Err(1), Err(2)} up to length 4; random "
@@ -264,6 +278,7 @@ import extras
 
 PROPS["C16"] = dict(
     gen=cases.gen_C16,
+    project=cases.project_states,
     extra=extras.c16_extra,
     mask={"cat", "time", "unit", "float"},
     rule="harness built with --cfg rrtk_verif (scratch arrays poisoned with 0x7F): n-ary sum and product at arity 1..8 x all 2^N "
